@@ -324,7 +324,8 @@ class Miller(Vector3d):
         vector.
         """
         _, l = self.symmetrise(unique=True, return_multiplicity=True)
-        return l.reshape(self.shape)
+        # symmetrise() works on the flattened vectors; undo flatten()
+        return l.reshape(self.shape[::-1]).T
 
     @property
     def space(self) -> str:
